@@ -1158,3 +1158,21 @@ package apd
 //@   ensures [infneg] old(x.Form == Infinite && x.Negative) ==> (d.Form == Finite && val(d.Coeff) == 0 && ret0 == 0)
 //@   ensures [inf] old(x.Form == Infinite && !x.Negative) ==> (d.Form == Infinite && !d.Negative && ret0 == 0)
 //@   ensures [zero] old(iszero(x)) ==> (d.Form == Finite && val(d.Coeff) == 1 && d.Exponent == 0 && !d.Negative && ret0 == 0)
+
+//@ func (*Context).Ln
+//@   props C03 C04 C05 C06 C08 C18
+//@   exported
+//@   requires writable(d) && inv(x)
+//@   assigns d
+//@   ensures [invkeep] old(inv(d)) ==> inv(d)
+//@   loop 1 invariant closed(ed.Flags) && ed.Ctx == nc && nc != nil && writable(nc) && nc != c && inv(tmp1) && inv(tmp2) && inv(tmp3) && inv(tmp4) && inv(z) && inv(resAdjust) && inv(eps) && old(inv(d)) == inv(d)
+//@   loop 1 errexit ed
+//@   loop 2 invariant closed(ed.Flags) && ed.Ctx == nc && nc != nil && writable(nc) && nc != c && inv(tmp1) && inv(tmp2) && inv(tmp3) && inv(tmp4) && inv(z) && inv(resAdjust) && old(inv(d)) == inv(d) && loop != nil && writable(loop) && loop.c == nc && loop.arg != nil && inv(loop.prevZ) && inv(loop.delta)
+//@   loop 2 decreases wrap64u(loop.maxIterations - loop.i - 1)
+//@   ensures [closed] closed(ret0)
+//@   ensures [trap] trapped(c, ret0) ==> ret1 != nil
+//@   ensures [edclean] ret1 == nil ==> edclean(ed)
+//@   ensures [nan] NaN1(x, d, ret0)
+//@   ensures [neg] old(!isnan(x) && x.Negative && !iszero(x)) ==> (d.Form == NaN && ret0 == InvalidOperation)
+//@   ensures [inf] old(x.Form == Infinite && !x.Negative) ==> (d.Form == Infinite && !d.Negative && ret0 == 0)
+//@   ensures [zero] old(iszero(x)) ==> (d.Form == Infinite && d.Negative && ret0 == 0)
